@@ -7,6 +7,7 @@ import DesyncModel.Spec
 import DesyncModel.Tables.Wake
 import DesyncModel.Lemmas
 import DesyncModel.Setters
+import DesyncModel.Inv.JobReach
 
 namespace Desync.C13
 open Desync Gen
@@ -47,5 +48,31 @@ theorem sync_waits_while_suspended (f : Nat) (e : Bool) :
     (syncDecide .waitingForWake e).2 = .background ∧ (syncDecide .waitingForUnpark e).2 = .background ∧
     (syncDecide (.waitingForPoll f) e).2 = .background := by
   cases e <;> simp [syncDecide]
+
+/-- **A suspended queue holds later work, and everything scheduled earlier has finished (safety half of C13), in every
+reachable state**: while a suspension (or any other operation) of an object is open — begun and neither completed nor
+destroyed, which for a `suspend` lasts from the moment the queue reaches it until the resumer is used or dropped — no
+other operation of that object is open, no operation accepted later has begun, and every operation accepted earlier
+has ended.  Corollary of `C01_holds` (Exclusive) and `C02_holds` (InOrder). -/
+theorem suspended_queue_holds_later_work {s : State} (hr : Reachable s) {j : Nat} {b : Job}
+    (hb : s.jobs[j]? = some b) (hbeg : b.begun = true) (hend : b.ended = false) :
+    ∀ (j' : Nat) (b' : Job), s.jobs[j']? = some b' → b'.q = b.q → j' ≠ j →
+      b'.isOpen = false ∧ (j < j' → b'.begun = false) ∧ (j' < j → b'.ended = true) := by
+  intro j' b' hb' hq hne
+  have hex := exclusive_reachable hr
+  have hio := inOrder_reachable hr
+  have hopen : b.isOpen = true := by simp [Job.isOpen, hbeg, hend]
+  refine ⟨?_, ?_, ?_⟩
+  · cases ho : b'.isOpen with
+    | false => rfl
+    | true => exact absurd (hex j' j b' b hb' hb hq ho hopen) hne
+  · intro hlt
+    cases hb2 : b'.begun with
+    | false => rfl
+    | true =>
+      have := hio j j' b b' hb hb' hq.symm hlt hb2
+      rw [hend] at this; cases this
+  · intro hlt
+    exact hio j' j b' b hb' hb hq hlt hbeg
 
 end Desync.C13
